@@ -155,10 +155,10 @@ def reg_round():
 
 def reg_runs(ck, exe, tier):
     """rounds of reg_round() until the wall-clock budget is used up (a round takes ~0.5 s on an idle machine, several
-    seconds on a loaded one): at least 2 rounds, at most 10 (quick) / 100 (thorough); stops at the first round with a mismatch"""
+    seconds on a loaded one): at least 1 round, at most 10 (quick) / 100 (thorough); stops at the first round with a mismatch"""
     budget, most = (5.0, 10) if tier == 'quick' else (60.0, 100)
     t0 = time.time(); cases = []; il = []; rounds = 0
-    while rounds < most and (rounds < 2 or time.time() - t0 < budget):
+    while rounds < most and (rounds < 1 or time.time() - t0 < budget):
         rc = reg_round()
         rl = ck.run_impl(exe, rc, timeout=300, per_case_timeout=30, max_fail=3)
         cases += rc; il += rl; rounds += 1
@@ -197,7 +197,8 @@ def reg_phase(ck, tier, broken):
         if facts.get(k) != 'true':
             notgood.append('SrcFacts.%s = %s (the registry is not iterated under the spinlock / the spinlock is not acquire-release)' % (k, facts.get(k)))
     if notgood:
-        broken = ['T-src: ' + '; '.join(notgood)] + list(broken)
+        # in place: run_be reports the list as no-failing-input-found when nothing concrete turns up
+        broken.insert(0, 'T-src: ' + '; '.join(notgood) + (' [registration stress run: %d multi-thread runs, no lost context observed]' % len(ok) if not bad else ''))
     if bad:
         # the smallest failing run, then still smaller ones (a run takes well under a millisecond; the outcome is a race, so repeat)
         c0, i0, m0 = min(bad, key=lambda x: (int(x[0].split()[1]) * int(x[0].split()[2]), int(x[0].split()[1])))
